@@ -18,6 +18,8 @@ func checkC05(c *Ctx) {
 	c.Rule("C05/R1", "dispatch table of the extractor constructor: .name -> Name.Base, .fullname -> Name.Full, /k -> the sub-name lookup with prefix k= and the GOMAXPROCS special case enabled exactly for /gomaxprocs, anything else -> the configuration lookup returning nil when the key is absent")
 	c.Rule("C05/R2", "one splitter: Base and Parts take the trailing -N split from the same helper; with a '/' present Base is the text before the first '/', untouched; Parts is a partition of the name (each segment starts where the previous ended, the -N part starts where the rest ends)")
 	c.Rule("C05/R3", "the -N splitter splits only at a '-' that is followed by at least one byte, all of them digits")
+	c.Rule("C05/R7", "a plain key is the configured value whenever the key is configured: extractConfig returns nil only where ConfigIndex reported the key absent")
+	c.Rule("C05/R8", ".name and .fullname are Name.Base() and Name.Full() as they come: extractName and extractFull return those calls' results")
 	c.Rule("C05/R6", "decomposition is a function of the name in hand (same rule as C08/R11): no extractor writes memory it captured")
 	c.Rule("C05/R5", "absent is the empty string for filters too: the closure NewFilter builds for a key:value term returns FilterMatch.Match(extractor(result)) on every path")
 	c.Rule("C05/R4", "the sub-name lookup scans the parts in order and returns the text after the prefix of the first part that has it; the -N form is consulted only for /gomaxprocs and only on the last part")
@@ -28,6 +30,8 @@ func checkC05(c *Ctx) {
 	c05Splitter(c, p)
 	c05Lookup(c, p, "C05/R4")
 	c05AbsentIsEmpty(c, p, "C05/R5")
+	c05PlainKey(c, p)
+	c05NameIsBase(c, p)
 	closuresKeepNoState(c, p, "C05/R6", extractorCtors(p), 2, "an extractor writes memory it captured (at %s): what it remembers of one name — a view into the reader's reused line buffer — is applied to the next name of the same length, so /k, .name and /gomaxprocs come out of the wrong text")
 }
 
